@@ -993,7 +993,7 @@ func ruleMissingPredicate(rule string) RuleFn {
 				}
 				v := an.Resolve(r.Results[0])
 				if k, ok := v.(*ssa.Const); ok && k.IsNil() {
-					g := an.NewGates().AddEdges(an.EdgesWhere(sh, func(f an.Fact) bool { return strings.HasPrefix(f.S, "(len(φ") && strings.HasSuffix(f.S, " == 0)") })...)
+					g := an.NewGates().AddEdges(an.EdgesWhere(sh, func(f an.Fact) bool { return strings.HasPrefix(f.S, "(len(") && strings.HasSuffix(f.S, " == 0)") })...)
 					if hit, _ := an.PathTo(sh, nil, an.IsInstr(r), g); hit == nil && g.Len() > 0 {
 						okNil = true
 					}
